@@ -408,15 +408,16 @@ func (e *dbEnv) check() {
 }
 
 func TestDatabaseTruncation(t *testing.T) {
-	vk.Check(t, 48, 2400, func(rt *rapid.T, c *vk.Case) {
+	vk.Check(t, 64, 2000, func(rt *rapid.T, c *vk.Case) {
 		e := &dbEnv{rt: rt, c: c, t1: map[int]row1{}}
 		e.dir = vk.Dir()
 		defer os.RemoveAll(e.dir)
 		e.fileSize = rapid.SampledFrom([]int{1024, 2048, 4096}).Draw(rt, "fileSize")
 		cfg := stx.Cfg{SyncFreqMs: 1, HdrVersion: 1, IOConc: rapid.IntRange(1, 3).Draw(rt, "ioConc"), FileSize: e.fileSize, TxLogCache: 100, MaxActiveTx: 100,
-			MaxKeyLen: 1024, MaxValueLen: 4096, MaxTxEntries: 1024, WriteBuf: 4096, VLogCache: rapid.SampledFrom([]int{0, 0, 10}).Draw(rt, "vlogCache"),
+			MaxKeyLen: 512, MaxValueLen: 4096, MaxTxEntries: 128, WriteBuf: 4096, VLogCache: rapid.SampledFrom([]int{0, 0, 10}).Draw(rt, "vlogCache"),
 			BulkSize: rapid.SampledFrom([]int{1, 4}).Draw(rt, "bulk"), FlushThld: 100, SyncThld: 100, IdxCache: 100, CompactionThld: 2, AHTSyncThld: 100, MaxBuffered: 1 << 22}
-		e.opts = database.DefaultOptions().WithDBRootPath(e.dir).WithStoreOptions(storeOpts(cfg))
+		// (small transaction pools: the defaults allocate and clear > 100 MiB per open)
+		e.opts = database.DefaultOptions().WithDBRootPath(e.dir).WithStoreOptions(storeOpts(cfg).WithMaxConcurrency(8)).WithReadTxPoolSize(8)
 		db, err := database.NewDB("db1", nil, e.opts, quiet())
 		if err != nil {
 			rt.Fatalf("NewDB: %v", err)
